@@ -1637,7 +1637,22 @@ func convSym(ut_dst, ut_src types.Type, x value) (value, bool) {
 			if signed {
 				f = "to_fp"
 			}
-			return &sym{e: "((_ " + f + " 11 53) RNE " + v.e + ")", k: symFP}, true
+			e := v.e
+			if mm := sextRe.FindStringSubmatch(e); mm != nil && signed {
+				e = mm[1]
+			}
+			return withOrigin(&sym{e: "((_ " + f + " 11 53) RNE " + e + ")", k: symFP}, v), true
+		}
+		if d.Info()&types.IsInteger != 0 && v.k == symFP {
+			if v.origin != nil {
+				return symConv(d.Kind(), v.origin), true
+			}
+			w, signed := kindWidth(d.Kind())
+			conv := "fp.to_ubv"
+			if signed {
+				conv = "fp.to_sbv"
+			}
+			return &sym{e: fmt.Sprintf("((_ %s %d) RTZ %s)", conv, w, v.e), k: symBV, w: w, gk: d.Kind()}, true
 		}
 		if d.Kind() == types.Float64 && v.k == symFP {
 			return v, true
